@@ -7,6 +7,7 @@ mod dev;
 mod explore;
 mod refcodec;
 mod refcrypto;
+mod refmac;
 mod refregion;
 mod talloc;
 
